@@ -541,6 +541,8 @@ class Machine:
         raise Unsupported('external function without a model: %s (called at %s)' % (name, loc))
 
     def intrinsic(self, name, args, i):
+        if name.startswith('llvm.prefetch'):
+            return None        # a hint: no architectural read or write
         base = name
         if base.startswith('llvm.ctpop'):
             a = args[0]
